@@ -63,17 +63,23 @@ JudgeNtAssign(e, i) ==
              nt |-> TRUE, cls |-> cls]
 
 \* documented fixed-point kernels on int32 reps a, b (exponent -16): results as raw int64 values
+\* the six comparison results as one number: < 1, <= 2, > 4, >= 8, == 16, != 32
+CmpMask(x, y) == FromInt((IF Lt(x, y) THEN 1 ELSE 0) + (IF Le(x, y) THEN 2 ELSE 0) + (IF Gt(x, y) THEN 4 ELSE 0)
+                         + (IF Ge(x, y) THEN 8 ELSE 0) + (IF x = y THEN 16 ELSE 0) + (IF x # y THEN 32 ELSE 0))
 JudgeNtKernel(e, i) ==
     LET a == J(e.l)  b == J(e.r)
         want == CASE i.op = "multiply_widen" -> Mul(a, b)
                   [] i.op = "square" -> Mul(a, a)
                   [] i.op = "average" -> Add(a, b)                    \* rep of (a + b) >> 1_c at exponent -17
                   [] i.op = "mixed_add" -> Add(a, Shl(b, 4))          \* exponent -8 + exponent -4
+                  [] i.op = "mixed_cmp_fine_coarse" -> CmpMask(a, Shl(b, 4))      \* a*2^-8 ? b*2^-4
+                  [] i.op = "mixed_cmp_coarse_fine" -> CmpMask(Shl(b, 4), a)
         cls == <<"NtKernel", i.op>>
-    IN IF i.op = "mixed_add" /\ (~InT(want, IntT(32, 1)) \/ ~InT(Shl(b, 4), IntT(32, 1)))
+    IN IF (i.op = "mixed_add" /\ (~InT(want, IntT(32, 1)) \/ ~InT(Shl(b, 4), IntT(32, 1))))
+          \/ (i.op \in {"mixed_cmp_fine_coarse", "mixed_cmp_coarse_fine"} /\ ~InT(Shl(b, 4), IntT(32, 1)))
        THEN [d |-> "skip", nt |-> FALSE, cls |-> cls]
        ELSE [d |-> (IF e.wout # "ok" THEN (IF NtUb(e.wout) THEN "ub" ELSE "unexpected_signal")
                     ELSE IF J(e.wres) # want \/ e.wexp # i.exp THEN "wrong_value"
                     ELSE IF J(e.bres) # want THEN "oracle_disagrees_with_compiler" ELSE "ok"),
-             nt |-> BitLen(want) > 31, cls |-> cls]
+             nt |-> BitLen(want) > 31 \/ i.op \in {"mixed_cmp_fine_coarse", "mixed_cmp_coarse_fine"}, cls |-> cls]
 =============================================================================
